@@ -1,9 +1,12 @@
 package main
 
 import (
+	"fmt"
 	"go/ast"
 	"go/token"
 	"go/types"
+	"sort"
+	"strings"
 
 	"golang.org/x/tools/go/cfg"
 )
@@ -256,33 +259,154 @@ func (fg *FlowGraph) isReturnBlock(b *cfg.Block) bool {
 // PathQuery describes a search: starting just after From (or at entry when
 // From is invalid), can execution reach a location satisfying Target without
 // first passing a location satisfying Avoid? EdgeOK, when set, can prune an
-// edge (from block, successor index).
+// edge (from block, successor index). With Correlate, the search carries
+// boolean facts about local identifiers (x, !x, x == nil, x != nil) learned
+// from the edges taken (and from the edges dominating From) and prunes edges
+// that contradict them; a fact dies when its identifier is assigned.
 type PathQuery struct {
-	From   Loc
-	Target func(l Loc) bool
-	Avoid  func(l Loc) bool
-	EdgeOK func(from *cfg.Block, succIdx int) bool
+	From      Loc
+	Target    func(l Loc) bool
+	Avoid     func(l Loc) bool
+	EdgeOK    func(from *cfg.Block, succIdx int) bool
+	Correlate bool
+}
+
+type identFact struct {
+	obj   types.Object
+	isNil bool // fact is about obj == nil rather than obj itself
+}
+
+// identFacts extracts facts about identifiers from edge facts.
+func (fg *FlowGraph) identFacts(fs []Fact) map[identFact]bool {
+	out := map[identFact]bool{}
+	for _, f := range fs {
+		if f.Tag != nil {
+			continue
+		}
+		e := ast.Unparen(f.E)
+		switch x := e.(type) {
+		case *ast.Ident:
+			if o := fg.Info.ObjectOf(x); o != nil {
+				out[identFact{o, false}] = !f.Neg
+			}
+		case *ast.BinaryExpr:
+			if x.Op != token.EQL && x.Op != token.NEQ {
+				continue
+			}
+			for _, side := range [][2]ast.Expr{{x.X, x.Y}, {x.Y, x.X}} {
+				id, ok := ast.Unparen(side[0]).(*ast.Ident)
+				if !ok {
+					continue
+				}
+				if tv, ok := fg.Info.Types[side[1]]; ok && tv.IsNil() {
+					if o := fg.Info.ObjectOf(id); o != nil {
+						isNil := (x.Op == token.EQL) != f.Neg
+						out[identFact{o, true}] = isNil
+					}
+				}
+			}
+		}
+	}
+	return out
+}
+
+func factsKey(m map[identFact]bool) string {
+	if len(m) == 0 {
+		return ""
+	}
+	var ks []string
+	for k, v := range m {
+		ks = append(ks, fmt.Sprintf("%p/%v=%v", k.obj, k.isNil, v))
+	}
+	sort.Strings(ks)
+	return strings.Join(ks, ";")
+}
+
+// killed: identifiers assigned (or address-taken) by node n.
+func (fg *FlowGraph) killed(n ast.Node, facts map[identFact]bool) map[identFact]bool {
+	if len(facts) == 0 {
+		return facts
+	}
+	var dead []types.Object
+	inspectNoLit(n, func(x ast.Node) bool {
+		switch s := x.(type) {
+		case *ast.AssignStmt:
+			for _, l := range s.Lhs {
+				if id, ok := ast.Unparen(l).(*ast.Ident); ok {
+					dead = append(dead, fg.Info.ObjectOf(id))
+				}
+			}
+		case *ast.IncDecStmt:
+			if id, ok := ast.Unparen(s.X).(*ast.Ident); ok {
+				dead = append(dead, fg.Info.ObjectOf(id))
+			}
+		case *ast.UnaryExpr:
+			if s.Op == token.AND {
+				if id, ok := ast.Unparen(s.X).(*ast.Ident); ok {
+					dead = append(dead, fg.Info.ObjectOf(id))
+				}
+			}
+		case *ast.RangeStmt:
+			for _, e := range []ast.Expr{s.Key, s.Value} {
+				if id, ok := e.(*ast.Ident); ok {
+					dead = append(dead, fg.Info.ObjectOf(id))
+				}
+			}
+		}
+		return true
+	})
+	if len(dead) == 0 {
+		return facts
+	}
+	out := map[identFact]bool{}
+	for k, v := range facts {
+		keep := true
+		for _, d := range dead {
+			if d == k.obj {
+				keep = false
+			}
+		}
+		if keep {
+			out[k] = v
+		}
+	}
+	return out
 }
 
 // Reach runs the query and returns a witness path (block-node positions) if
 // a target is reachable.
 func (fg *FlowGraph) Reach(q PathQuery) (bool, []ast.Node) {
-	type item struct {
-		b     *cfg.Block
-		start int
-	}
-	type pred struct {
-		prev int
-		node ast.Node
-	}
 	startB, startI := fg.G.Blocks[0], 0
+	facts := map[identFact]bool{}
 	if q.From.Valid() {
 		startB, startI = q.From.Block, q.From.Idx+1
+		if q.Correlate {
+			facts = fg.identFacts(fg.DominatingFacts(q.From))
+			// a dominating fact is only trusted for identifiers assigned at
+			// most once in the whole body (so the test cannot be stale)
+			for k := range facts {
+				if fg.assignCount(k.obj) > 1 {
+					delete(facts, k)
+				}
+			}
+			// facts may have been killed between the dominating edge and From;
+			// conservatively drop facts about identifiers assigned anywhere
+			// in the dominating chain after their test is not tracked, so
+			// only keep facts whose identifier is never assigned between:
+			// approximate by killing with the nodes of From's block up to From.
+			for i := 0; i <= q.From.Idx && i < len(startB.Nodes); i++ {
+				facts = fg.killed(startB.Nodes[i], facts)
+			}
+		}
 	}
-	visited := map[int32]bool{}
+	type vkey struct {
+		b int32
+		f string
+	}
+	visited := map[vkey]bool{}
 	var trail []ast.Node
-	var walk func(b *cfg.Block, start int) bool
-	walk = func(b *cfg.Block, start int) bool {
+	var walk func(b *cfg.Block, start int, facts map[identFact]bool) bool
+	walk = func(b *cfg.Block, start int, facts map[identFact]bool) bool {
 		for i := start; i < len(b.Nodes); i++ {
 			l := Loc{b, i, b.Nodes[i]}
 			if q.Avoid != nil && q.Avoid(l) {
@@ -292,27 +416,56 @@ func (fg *FlowGraph) Reach(q PathQuery) (bool, []ast.Node) {
 				trail = append(trail, b.Nodes[i])
 				return true
 			}
+			if q.Correlate {
+				facts = fg.killed(b.Nodes[i], facts)
+			}
 		}
 		for si, s := range b.Succs {
 			if q.EdgeOK != nil && !q.EdgeOK(b, si) {
 				continue
 			}
-			if visited[s.Index] {
+			nf := facts
+			if q.Correlate && len(b.Succs) == 2 {
+				ef := fg.identFacts(fg.edgeFacts(b, si))
+				feasible := true
+				for k, v := range ef {
+					if old, ok := facts[k]; ok && old != v {
+						feasible = false
+					}
+				}
+				if !feasible {
+					continue
+				}
+				if len(ef) > 0 {
+					nf = map[identFact]bool{}
+					for k, v := range facts {
+						nf[k] = v
+					}
+					for k, v := range ef {
+						nf[k] = v
+					}
+				}
+			}
+			vk := vkey{s.Index, ""}
+			if q.Correlate {
+				vk.f = factsKey(nf)
+			}
+			if visited[vk] {
 				continue
 			}
-			visited[s.Index] = true
+			visited[vk] = true
 			mark := len(trail)
 			if len(b.Nodes) > 0 {
 				trail = append(trail, b.Nodes[len(b.Nodes)-1])
 			}
-			if walk(s, 0) {
+			if walk(s, 0, nf) {
 				return true
 			}
 			trail = trail[:mark]
 		}
 		return false
 	}
-	ok := walk(startB, startI)
+	ok := walk(startB, startI, facts)
 	return ok, trail
 }
 
@@ -509,4 +662,44 @@ func sameExpr(info *types.Info, a, b ast.Expr) bool {
 		return ok && x.Op == y.Op && sameExpr(info, x.X, y.X) && sameExpr(info, x.Y, y.Y)
 	}
 	return false
+}
+
+// assignCount: number of assignments (including := definitions with a value)
+// to the object anywhere in the body, literals included.
+func (fg *FlowGraph) assignCount(o types.Object) int {
+	n := 0
+	ast.Inspect(fg.Body, func(x ast.Node) bool {
+		switch s := x.(type) {
+		case *ast.AssignStmt:
+			for _, l := range s.Lhs {
+				if id, ok := ast.Unparen(l).(*ast.Ident); ok && fg.Info.ObjectOf(id) == o {
+					n++
+				}
+			}
+		case *ast.IncDecStmt:
+			if id, ok := ast.Unparen(s.X).(*ast.Ident); ok && fg.Info.ObjectOf(id) == o {
+				n++
+			}
+		case *ast.ValueSpec:
+			for i, nm := range s.Names {
+				if fg.Info.ObjectOf(nm) == o && i < len(s.Values) {
+					n++
+				}
+			}
+		case *ast.RangeStmt:
+			for _, e := range []ast.Expr{s.Key, s.Value} {
+				if id, ok := e.(*ast.Ident); ok && fg.Info.ObjectOf(id) == o {
+					n += 2
+				}
+			}
+		case *ast.UnaryExpr:
+			if s.Op == token.AND {
+				if id, ok := ast.Unparen(s.X).(*ast.Ident); ok && fg.Info.ObjectOf(id) == o {
+					n += 2
+				}
+			}
+		}
+		return true
+	})
+	return n
 }
